@@ -394,27 +394,38 @@ def run(chk, replay=None):
             run_and_absorb(corpus)
         # systematic enumeration under a preemption bound
         bound = 2 if tier == "quick" else 3
-        per_cfg = 2500 if tier == "quick" else 40000
+        per_cfg = 2500 if tier == "quick" else 25000
         cfgs = small_configs(tier)
         enums = {c[0]: schedlib.Enumerator(bound, per_cfg) for c in cfgs}
         counter = 0
         while any(e.active() for e in enums.values()) and nbad[0] < ENOUGH:
-            cases, owners = [], []
-            for (name, kind, cap, count, spur, thr, progs, pre) in cfgs:
-                e = enums[name]
-                if not e.active():
-                    continue
-                b = e.next_batch(512)
-                cs = []
-                for (p, _) in b:
-                    counter += 1
-                    cs.append(mkcase("%s_%d" % (name, counter), kind, progs, schedlib.list_source(p),
-                                     cap=cap, count=count, spur=spur, thr=thr, pre=pre, tag="systematic"))
-                cases += cs
-                owners.append((e, b, cs))
-            runs = run_and_absorb(cases)
-            for (e, b, cs) in owners:
-                e.feed(b, [runs[c.cid] for c in cs])
+            # one round over all configurations, then up to 7 more over those whose batch was small, so that
+            # small configurations reach their deeper levels (more preemptions) as quickly as the large ones
+            small = None
+            for rep in range(8):
+                cases, owners = [], []
+                for (name, kind, cap, count, spur, thr, progs, pre) in cfgs:
+                    e = enums[name]
+                    if not e.active() or (small is not None and name not in small):
+                        continue
+                    b = e.next_batch(512)
+                    cs = []
+                    for (p, _) in b:
+                        counter += 1
+                        cs.append(mkcase("%s_%d" % (name, counter), kind, progs, schedlib.list_source(p),
+                                         cap=cap, count=count, spur=spur, thr=thr, pre=pre, tag="systematic"))
+                    cases += cs
+                    owners.append((e, b, cs, name))
+                if not cases:
+                    break
+                runs = run_and_absorb(cases)
+                small = set()
+                for (e, b, cs, name) in owners:
+                    e.feed(b, [runs[c.cid] for c in cs])
+                    if len(b) < 128:
+                        small.add(name)
+                if not small or nbad[0] >= ENOUGH:
+                    break
         for (name, kind, cap, count, spur, thr, progs, pre) in cfgs:
             e = enums[name]
             stats["systematic_runs"] += e.nruns
